@@ -90,6 +90,31 @@ def mutate(r: random.Random, text: str) -> tuple[str, str]:
 	return '\n'.join(lines) + '\n', kind
 
 
+def compact(r: random.Random, text: str) -> str | None:
+	"""The same sentence with blanks removed between tokens wherever CPython still reads the same program (decided by comparing ast dumps):
+	the layout a person actually types (`a[-1]`, `f(x, -y)`, `a-1`). None when nothing could be removed."""
+	lines = []
+	for line in text.rstrip('\n').split('\n'):
+		pad = line[:len(line) - len(line.lstrip('\t'))]
+		toks = line.strip('\t').split(' ')
+		out = toks[0] if toks else ''
+		for prev, tok in zip(toks, toks[1:]):
+			wordy = (prev[-1:].isalnum() or prev[-1:] in '_"\'') and (tok[:1].isalnum() or tok[:1] in '_"\'')
+			# the tokenizer documents one layout rule: a minus is binary only when a blank follows it (C13 exempts 'after a minus sign')
+			glue = not wordy and prev != '-' and r.random() < 0.8
+			out += ('' if glue else ' ') + tok
+		lines.append(pad + out)
+	cand = '\n'.join(lines) + '\n'
+	if cand == text:
+		return None
+	try:
+		if ast.dump(ast.parse(cand)) != ast.dump(ast.parse(text)):
+			return None
+	except SyntaxError:
+		return None
+	return cand
+
+
 RE_SUMMARY = re.compile(r"^pass: (\d+)/(\d+), token: (.*)\n\((\d+)\) >>> (.*)\n(.*)$", re.S)
 
 
@@ -209,10 +234,13 @@ FIXED = [
 ]
 
 
+FIXED_COMPACT = ['x = a[-1]\n', 'x = [-1, -2]\n', 'x = a[b:-1]\n', 'f(a[-n], -m)\n', 'x = {"k": -2}\n', 'x = (-a)\n', 'x = a if -b else -c\n', 'x = a == -1\n', 'x = a*-b\n']
+
+
 def shard(ctx: Ctx, acc: Acc) -> None:
 	from vf.gen.pysent import PySent
 	if ctx.shard == 0:
-		for t in FIXED:
+		for t in FIXED + FIXED_COMPACT:
 			check_text(acc, {'text': t, 'features': ['sum:+', 'stmt:if']})
 	n = N_SENTENCES[ctx.tier]
 	for i in range(n):
@@ -229,6 +257,11 @@ def shard(ctx: Ctx, acc: Acc) -> None:
 			check_text(acc, case)
 			for f in g.f:
 				acc.see('feature', f)
+			if i % 2 == 1:
+				ct = compact(r, text)
+				if ct is not None:
+					acc.see('layout', 'compact')
+					check_text(acc, {'text': ct, 'features': sorted(g.f) + ['layout:compact']})
 			if i % 3 == 0:
 				mt, kind = mutate(r, text)
 				if mt != text:
